@@ -222,6 +222,9 @@ func (f *archiveFileWriter) Write(p []byte) (int, error) {
 	if err != nil {
 		return 0, err
 	}
+	if f.file != nil {
+		_ = f.file.Close() // the previous entry is complete
+	}
 	f.file = file
 	f.left = srcFile.Size
 	return idx + 1, nil
